@@ -107,7 +107,7 @@ func catch(f func()) (panicked bool) {
 func main() {
 	r := rep.Open()
 	defer r.Close()
-	r.Rule = "exhaustive grid: all name lists of length<=4 over {'', '.', '..', a, a/b, a\\b, ..., ..a, /, b, \\a, a\\, /a, \\, x..y} x canonical dirs of depth 0..3 for ValidPath/NormalizePath/WalkName; CreateName over dirs x alphabet; ToWalk/path.Clean over all strings of length<=7 over {/ . a \\}; plus random byte-string names. A case is non-trivial when its name list or string is non-empty; distinct by canonical case text."
+	r.Rule = "exhaustive grid: all name lists of length<=4 over {'', '.', '..', a, a/b, a\\b, ..., ..a, /, b, \\a, a\\, /a, \\, x..y} x canonical dirs of depth 0..3 for ValidPath/NormalizePath/WalkName; CreateName over dirs x alphabet; ToWalk/path.Clean over all strings of length<=7 over {/ . a \\}; plus every name of length<=4 over {. / \\ a} alone and beside '..', '.', a; plus random byte-string names. A case is non-trivial when its name list or string is non-empty; distinct by canonical case text."
 	rng := prng.New(r.Seed)
 
 	var lists [][]string
@@ -138,6 +138,29 @@ func main() {
 			lists = append(lists, append(append([]string{}, l...), alphabet[(n+lead)%len(alphabet)]))
 		}
 	}
+	// every name of length <= 4 over { . / \ a }, alone and next to "..", "." and a plain name on either side
+	// (a check that is skipped for names of one shape only, e.g. names that start with a dot)
+	var special []string
+	var genName func(cur string, depth int)
+	genName = func(cur string, depth int) {
+		if cur != "" {
+			special = append(special, cur)
+		}
+		if depth == 0 {
+			return
+		}
+		for _, ch := range []string{".", "/", "\\", "a"} {
+			genName(cur+ch, depth-1)
+		}
+	}
+	genName("", 4)
+	for _, sp := range special {
+		lists = append(lists, []string{sp})
+		for _, other := range []string{"..", ".", "a"} {
+			lists = append(lists, []string{sp, other}, []string{other, sp})
+		}
+		lists = append(lists, []string{"a", sp, ".."}, []string{"a", "b", sp, "..", ".."})
+	}
 	nlong := 64
 	// random lists: names from alphabet plus random bytes
 	nrand := r.N(2000, 40000)
@@ -150,6 +173,9 @@ func main() {
 				l[j] = string(rng.Bytes(rng.Intn(5)))
 			case 1:
 				l[j] = ".."
+				if rng.Chance(1, 3) {
+					l[j] = special[rng.Intn(len(special))]
+				}
 			default:
 				l[j] = alphabet[rng.Intn(len(alphabet))]
 			}
